@@ -237,21 +237,35 @@ func scanCheck(res *result, family string, keys [][]byte, prefixes [][]byte) {
 		st.Read(func(bm diskstore.BucketManager) error {
 			b, _ := bm.Get("fam")
 			n := len(keys)
-			bounds := make([]int, 0, n+1)
-			bounds = append(bounds, -1) // nil
-			for i := 0; i < n; i++ {
-				bounds = append(bounds, i)
+			// bounds: nil, every stored key, and - because a bound need not be a stored key -
+			// every proper prefix of a stored key, every key extended by a zero byte, and every
+			// key with its last byte lowered by one
+			var bounds [][]byte
+			bounds = append(bounds, nil)
+			seenB := map[string]bool{}
+			addB := func(b []byte) {
+				if len(b) > 0 && !seenB[string(b)] {
+					seenB[string(b)] = true
+					bounds = append(bounds, append([]byte{}, b...))
+				}
 			}
-			for _, si := range bounds {
-				for _, ei := range bounds {
+			for _, k := range keys {
+				addB(k)
+			}
+			for _, k := range keys {
+				for l := 1; l < len(k) && len(k) <= 6; l++ {
+					addB(k[:l])
+				}
+				addB(append(append([]byte{}, k...), 0))
+				if len(k) > 0 && k[len(k)-1] > 0 {
+					d := append([]byte{}, k...)
+					d[len(d)-1]--
+					addB(d)
+				}
+			}
+			for _, start := range bounds {
+				for _, end := range bounds {
 					for _, incl := range []bool{true, false} {
-						var start, end []byte
-						if si >= 0 {
-							start = keys[si]
-						}
-						if ei >= 0 {
-							end = keys[ei]
-						}
 						var got []int
 						last := -1
 						ordered := true
@@ -264,17 +278,16 @@ func scanCheck(res *result, family string, keys [][]byte, prefixes [][]byte) {
 							got = append(got, idx)
 							return nil
 						})
+						// keys are stored in ascending order: the answer is the index interval [lo, hi]
 						lo, hi := 0, n-1
-						if si >= 0 {
-							lo = si
-							if !incl {
-								lo = si + 1
+						if start != nil {
+							for lo < n && (bytes.Compare(keys[lo], start) < 0 || (!incl && bytes.Equal(keys[lo], start))) {
+								lo++
 							}
 						}
-						if ei >= 0 {
-							hi = ei
-							if !incl {
-								hi = ei - 1
+						if end != nil {
+							for hi >= 0 && (bytes.Compare(keys[hi], end) > 0 || (!incl && bytes.Equal(keys[hi], end))) {
+								hi--
 							}
 						}
 						want := 0
@@ -290,7 +303,7 @@ func scanCheck(res *result, family string, keys [][]byte, prefixes [][]byte) {
 							res.Nontriv++
 						}
 						if !ok {
-							res.v("range-scan-"+family, "%s: RangeScan(start=#%d,end=#%d,inclusive=%v) over %d %s keys visited %d entries %v, want the %d values #%d..#%d in order", name, si, ei, incl, n, family, len(got), clip(got), want, lo, hi)
+							res.v("range-scan-"+family, "%s: RangeScan(start=%x,end=%x,inclusive=%v) over %d %s keys visited %d entries %v, want the %d values #%d..#%d in order", name, start, end, incl, n, family, len(got), clip(got), want, lo, hi)
 						}
 					}
 				}
@@ -735,7 +748,7 @@ func worker(raw json.RawMessage) (json.RawMessage, error) {
 		}
 		prefixes = append(prefixes, []byte("zz"), []byte{0xff, 0xff, 0xff})
 		scanCheck(res, "string", sk, prefixes)
-		res.Sample = map[string]any{"family": "all RangeScan(start,end,inclusive) with bounds from the family or nil, all PrefixScans, memstore and bbolt", "ints": len(ints), "floats": len(fl), "strings": len(ss)}
+		res.Sample = map[string]any{"family": "all RangeScan(start,end,inclusive) with bounds nil / every stored key / every proper prefix of a key / key+00 / key with its last byte lowered, all PrefixScans, memstore and bbolt", "ints": len(ints), "floats": len(fl), "strings": len(ss)}
 	case "vector-lengths":
 		// one vector of every length Lo..Hi (bit patterns from a counter that
 		// visits every exponent), through the same round-trip checks
@@ -761,7 +774,7 @@ func seq(a, b int) []int {
 }
 
 func master(cfg *harness.Config, rep *harness.Report) {
-	rep.Rule = "families: int64 ±2^k+δ (k<64,|δ|<=2) with all pairs; float64 all 2046 exponents x sign x 4 mantissa corners + zeros, subnormals, infinities in value order (adjacent pairs => all pairs by transitivity); all strings of length<=4 over 7 bytes; text-index term keys for all terms of length<=5 over the key marker bytes {t,s,d,a,00,ff} and the decoder on all candidate keys of length<=6; boundary uint64 ids x all 256 key suffixes; boundary uuids x 256 suffixes; edge lists of length 0..64 and 4096; float32 bit patterns (quick: 2^20 patterns with stride 4096 covering every sign/exponent and 12 mantissa bits, thorough: all 2^32) packed into vectors, plus one vector of every length 1..4096; each decoded from the encoder's buffer and from copies at every source offset 0..7; all range/prefix scans over 15-value families on memstore and bbolt; thorough adds all int64 of the form v<<s (v any int32, s in {0,31}) and every non-NaN float32 widened to float64. non-trivial = sign/exponent boundary crossed between neighbours, proper sub-range scans, distinct ids"
+	rep.Rule = "families: int64 ±2^k+δ (k<64,|δ|<=2) with all pairs; float64 all 2046 exponents x sign x 4 mantissa corners + zeros, subnormals, infinities in value order (adjacent pairs => all pairs by transitivity); all strings of length<=4 over 7 bytes; text-index term keys for all terms of length<=5 over the key marker bytes {t,s,d,a,00,ff} and the decoder on all candidate keys of length<=6; boundary uint64 ids x all 256 key suffixes; boundary uuids x 256 suffixes; edge lists of length 0..64 and 4096; float32 bit patterns (quick: 2^20 patterns with stride 4096 covering every sign/exponent and 12 mantissa bits, thorough: all 2^32) packed into vectors, plus one vector of every length 1..4096; each decoded from the encoder's buffer and from copies at every source offset 0..7; all range/prefix scans over 15-value families on memstore and bbolt, with bounds that are stored keys and bounds that are not (prefixes of keys, keys extended by 00, predecessors); thorough adds all int64 of the form v<<s (v any int32, s in {0,31}) and every non-NaN float32 widened to float64. non-trivial = sign/exponent boundary crossed between neighbours, proper sub-range scans, distinct ids"
 	rep.Assumptions = []string{"values outside the families (most int64/float64 bit patterns) are covered only in the thorough sweeps stated in the rule", "native little-endian machine: the raw float32 codec is the one selected at init"}
 	var jobs []json.RawMessage
 	add := func(j job) {
